@@ -22,7 +22,7 @@ def twin_spec(r: random.Random, idx: int) -> dict:
             lv["lsc"] = {"kind": r.choice(["DontStop", "MetaepochLimit"]), "n": r.choice([2, 3])}
         levels.append(lv)
     spec = {"name": f"twin{idx}", "seed": r.randrange(1, 10 ** 6), "dim": r.choice([2, 3]),
-            "box": r.choice(["sym", "asym", "unit", "decimal"]), "fn": r.choice(["sphere", "multi", "funnels", "linear", "offset"]),
+            "box": r.choice(["sym", "asym", "unit", "decimal"]), "fn": r.choice(["sphere", "multi", "funnels", "linear", "offset", "plateau", "plateau", "zero"]),
             "levels": levels, "hibernation": r.random() < 0.4,
             "gsc": r.choice([{"kind": "MetaepochLimit", "n": r.choice([3, 4, 5])},
                              {"kind": "SingularEvalLimit", "n": r.choice([60, 150])}]),
